@@ -417,7 +417,7 @@ func kindHier2(c *hlib.Ctx) {
 			flipLoops2(c, s)
 		}
 	}
-	hier2Case(c, s, label, polyRoots)
+	hier2Case(c, s, label, polyRoots, randomXform2(c))
 }
 
 // flipLoops2 reverses whole loops (connected components) at random.
@@ -450,14 +450,23 @@ func flipLoops2(c *hlib.Ctx, s *soup2) {
 	}
 }
 
-// hier2Case runs the 2-D MeshToHierarchy on the soup and prints nodes, parents, FullMesh and
-// Contains on query points.
-func hier2Case(c *hlib.Ctx, s *soup2, label string, polyRoots []*pnode) {
-	b := s.build()
+// hier2Case runs the 2-D MeshToHierarchy on the image of the soup under xf and prints nodes,
+// parents, FullMesh and Contains on query points (drawn in the original frame, then mapped).
+func hier2Case(c *hlib.Ctx, s *soup2, label string, polyRoots []*pnode, xf xform) {
 	var qs []model2d.Coord
 	if len(s.segs) > 0 {
-		mn, mx := b.m.Min(), b.m.Max()
+		mn, mx := s.coords[0], s.coords[0]
+		for _, p := range s.coords {
+			mn, mx = mn.Min(p), mx.Max(p)
+		}
 		nq := 6 + c.Rng.Intn(10)
+		if polyRoots != nil {
+			// material cells and notches of the nodes
+			for _, q := range polyQueries(c, polyRoots, 8+c.Rng.Intn(8)) {
+				qs = append(qs, model2d.XY(q[0], q[1]))
+			}
+			nq = 4
+		}
 		for i := 0; i < nq; i++ {
 			r := func(lo, hi float64, off float64) float64 {
 				span := int((hi-lo)*8) + 2
@@ -466,6 +475,17 @@ func hier2Case(c *hlib.Ctx, s *soup2, label string, polyRoots []*pnode) {
 			qs = append(qs, model2d.XY(r(mn.X, mx.X, 0.37), r(mn.Y, mx.Y, 0.21)))
 		}
 	}
+	if !xf.isIdentity() {
+		for i := range s.coords {
+			s.coords[i] = xf.apply2(s.coords[i])
+		}
+		for i := range qs {
+			qs[i] = xf.apply2(qs[i])
+		}
+	}
+	c.Stat("hier2-xform:"+xf.name, 1)
+	b := s.build()
+	sweepStats2(c, s)
 	var out string
 	st := watchdog(func() {
 		roots := model2d.MeshToHierarchy(b.m)
